@@ -43,6 +43,8 @@ const (
 	stPresent        // present request Req once
 	stForge          // present an unauthenticated variant derived from request Req
 	stConc           // present K copies of request Req concurrently
+	stOpen           // open connection Conn for request Req: HandleStream starts on a transport that is still empty
+	stDeliver        // the bytes of its request arrive on the idle connection Conn; wait for the verdict
 )
 
 const (
@@ -68,6 +70,7 @@ type step struct {
 	Forge int           `json:"forge,omitempty"`
 	Pos   int           `json:"pos,omitempty"`
 	K     int           `json:"k,omitempty"`
+	Conn  int           `json:"conn,omitempty"`
 }
 
 type plan struct {
@@ -99,6 +102,10 @@ func (p plan) String() string {
 			fmt.Fprintf(&sb, " forge(r%d,kind=%d,pos=%d)", s.Req, s.Forge, s.Pos)
 		case stConc:
 			fmt.Fprintf(&sb, " concurrent(r%d x%d)", s.Req, s.K)
+		case stOpen:
+			fmt.Fprintf(&sb, " open(conn%d for r%d, no bytes yet)", s.Conn, s.Req)
+		case stDeliver:
+			fmt.Fprintf(&sb, " deliver(conn%d)", s.Conn)
 		}
 	}
 	return sb.String()
@@ -259,7 +266,7 @@ func execute(t *testing.T, p plan) (out outcome) {
 		time.Sleep(p.Start)
 		now := p.Start
 
-		present := func(b []byte, want conn.Addr) (ok, wrong bool) {
+		newConn := func() *xnet.Conn {
 			_, c := xnet.Pair()
 			switch {
 			case !p.Class.Segmented:
@@ -267,14 +274,40 @@ func execute(t *testing.T, p plan) (out outcome) {
 			case p.Dribble:
 				c.SetReadPlan([]int{1, 2, 5}, 0, false)
 			}
-			c.Inject(b)
-			c.EndInput()
+			return c
+		}
+		handle := func(c *xnet.Conn, want conn.Addr) (ok, wrong bool) {
 			req, err := server.HandleStream(c, nop)
 			if err != nil || req.Addr.Equals(sstcp.FallbackAddr) {
 				return false, false
 			}
 			return true, !req.Addr.Equals(want)
 		}
+		present := func(b []byte, want conn.Addr) (ok, wrong bool) {
+			c := newConn()
+			c.Inject(b)
+			c.EndInput()
+			return handle(c, want)
+		}
+
+		// idle connections: HandleStream is already running (blocked in its first read) while the clock moves
+		type idleConn struct {
+			req      int
+			c        *xnet.Conn
+			openedAt time.Duration
+			done     chan [2]bool
+			finished bool
+		}
+		idle := map[int]*idleConn{}
+		defer func() {
+			// no goroutine may outlive the case (and the bubble must not end with blocked goroutines)
+			for _, ic := range idle {
+				if !ic.finished {
+					ic.c.EndInput()
+					<-ic.done
+				}
+			}
+		}()
 
 		for si, s := range p.Steps {
 			if out.violation != "" {
@@ -292,16 +325,56 @@ func execute(t *testing.T, p plan) (out outcome) {
 				if ok {
 					violate(sigForged, "step %d: forged kind %d derived from r%d accepted at server instant %v", si, s.Forge, s.Req, now)
 				}
-			case stPresent, stConc:
+			case stOpen:
+				ic := &idleConn{req: s.Req, c: newConn(), openedAt: now, done: make(chan [2]bool, 1)}
+				idle[s.Conn] = ic
+				want := p.target(s.Req)
+				go func() {
+					ok, wrong := handle(ic.c, want)
+					ic.done <- [2]bool{ok, wrong}
+				}()
+				synctest.Wait() // HandleStream has reached its blocking first read at this instant
+				keyParts = append(keyParts, "o")
+			case stPresent, stConc, stDeliver:
 				k := 1
 				if s.Kind == stConc {
 					k = s.K
 				}
 				r := s.Req
+				var ic *idleConn
+				if s.Kind == stDeliver {
+					if ic = idle[s.Conn]; ic == nil || ic.finished {
+						continue
+					}
+					r = ic.req
+				}
 				valid := validAt(p.Reqs[r].At, now)
 				acceptedAt, was := accepted[r]
 				succ, wrong := 0, false
-				if k == 1 {
+				if ic != nil {
+					// the judgement below is made at the instant the bytes arrive, whenever the connection was opened
+					ic.c.Inject(wire[r])
+					ic.c.EndInput()
+					res := <-ic.done
+					ic.finished = true
+					if res[0] {
+						succ = 1
+					}
+					wrong = res[1]
+					out.labels["idle-connection"] = true
+					if now-ic.openedAt >= time.Second {
+						out.labels["idle>=1s-before-bytes-arrive"] = true
+					}
+					if now-ic.openedAt >= 31*time.Second {
+						out.labels["idle>=31s-before-bytes-arrive"] = true
+					}
+					if was && ic.openedAt <= acceptedAt {
+						out.labels["idle-connection-opened-before-earlier-acceptance"] = true
+						if now-acceptedAt >= 60*time.Second {
+							out.labels["idle-connection-opened-before-acceptance-delivered-after-retention"] = true
+						}
+					}
+				} else if k == 1 {
 					ok, wr := present(wire[r], p.target(r))
 					if ok {
 						succ = 1
@@ -442,7 +515,7 @@ type rawStep struct{ Kind, A, B, C, D int }
 
 var rawGen = rapid.Custom(func(t *rapid.T) rawStep {
 	return rawStep{
-		Kind: rapid.IntRange(0, 13).Draw(t, "kind"),
+		Kind: rapid.IntRange(0, 17).Draw(t, "kind"),
 		A:    rapid.IntRange(0, 63).Draw(t, "a"),
 		B:    rapid.IntRange(0, 63).Draw(t, "b"),
 		C:    rapid.IntRange(0, 63).Draw(t, "c"),
@@ -474,6 +547,16 @@ func drawPlan(rt *rapid.T) plan {
 	now := p.Start
 	accepted := map[int]time.Duration{}
 	var genuine []int // indices of genuine specs
+	type pend struct{ conn, req int }
+	var pending []pend // idle connections whose bytes have not arrived yet
+	nextConn := 0
+	openIdle := func(r int) int {
+		c := nextConn
+		nextConn++
+		p.Steps = append(p.Steps, step{Kind: stOpen, Req: r, Conn: c})
+		pending = append(pending, pend{c, r})
+		return c
+	}
 	newReq := func(foreign bool, a, b int) int {
 		skew := at(skewAlphabet, a) + at(phaseAlphabet, b)
 		p.Reqs = append(p.Reqs, reqSpec{At: now + skew, Foreign: foreign})
@@ -540,7 +623,7 @@ func drawPlan(rt *rapid.T) plan {
 			}
 			p.Steps = append(p.Steps, step{Kind: stConc, Req: r, K: 2 + s.D%7})
 			note(r)
-		default:
+		case kind <= 13:
 			// retention probe: (accept a request,) move the clock to an instant chosen relative to the moment
 			// it was accepted, optionally let another request be accepted, then present the same bytes again
 			var r int
@@ -578,6 +661,63 @@ func drawPlan(rt *rapid.T) plan {
 				p.Steps = append(p.Steps, step{Kind: stPresent, Req: r})
 			}
 			note(r)
+		case kind <= 14: // open a connection for a new or an existing request; its bytes arrive later (or never)
+			var r int
+			if s.C%2 == 1 {
+				r = newReq(false, s.A, s.B)
+			} else {
+				r = at(genuine, s.A)
+			}
+			openIdle(r)
+		case kind <= 15 && len(pending) > 0: // the bytes arrive on an idle connection
+			i := s.A % len(pending)
+			p.Steps = append(p.Steps, step{Kind: stDeliver, Conn: pending[i].conn})
+			note(pending[i].req)
+			pending = append(pending[:i:i], pending[i+1:]...)
+		default:
+			// idle probe: open a connection, (let the same request be accepted on another connection,) let the clock
+			// run for d, (let another request be accepted,) then the bytes arrive
+			d := at([]time.Duration{time.Second, 100 * time.Second, 60 * time.Second, 31 * time.Second, 30 * time.Second, 29 * time.Second, 59 * time.Second,
+				61 * time.Second, 0, 60*time.Second + time.Nanosecond, 61*time.Second - time.Nanosecond, time.Second - time.Nanosecond}, s.D)
+			var r int
+			if s.C%3 == 0 {
+				r = at(genuine, s.A)
+			} else {
+				// stamped around the instant the connection is opened (stale on arrival) or around the arrival
+				at0 := now
+				if s.C/3%2 == 1 {
+					at0 += d
+				}
+				p.Reqs = append(p.Reqs, reqSpec{At: at0 + at(skewAlphabet, s.A) + at(phaseAlphabet, s.B)})
+				r = len(p.Reqs) - 1
+				genuine = append(genuine, r)
+			}
+			c := openIdle(r)
+			if s.D/16%2 == 1 {
+				p.Steps = append(p.Steps, step{Kind: stPresent, Req: r})
+				note(r)
+			}
+			p.Steps = append(p.Steps, step{Kind: stAdv, D: d})
+			now += d
+			if s.D/32%2 == 1 {
+				p.Reqs = append(p.Reqs, reqSpec{At: now})
+				f := len(p.Reqs) - 1
+				genuine = append(genuine, f)
+				p.Steps = append(p.Steps, step{Kind: stPresent, Req: f})
+				note(f)
+			}
+			p.Steps = append(p.Steps, step{Kind: stDeliver, Conn: c})
+			note(r)
+			pending = pending[:len(pending)-1]
+			if s.D/64%2 == 1 {
+				// whatever was accepted on the idle connection must be remembered from the arrival on
+				p.Reqs = append(p.Reqs, reqSpec{At: now})
+				f := len(p.Reqs) - 1
+				genuine = append(genuine, f)
+				p.Steps = append(p.Steps, step{Kind: stPresent, Req: f}, step{Kind: stPresent, Req: r})
+				note(f)
+				note(r)
+			}
 		}
 	}
 	return p
@@ -590,11 +730,15 @@ var recHist = ev.New("C03", "replay-history",
 		"validity start/end and accept+60s/61s of an existing request), present a new request built by the real client at client instant "+
 		"server-now+skew (skew in {-31,-30,-29,-1,0,1,29,30,31}s + sub-second phase), present an existing request again, present unauthenticated "+
 		"traffic derived from a request (garbage, bit flips in fixed header/EIH/prefix, genuine salt + random, truncated, foreign key), present k in 2..8 "+
-		"copies concurrently, retention probe = accept / move to accept+{59s,60s-1ns,60s,60s+1ns,60.5s,61s-1ns,61s} / optional other accept / same bytes again}; client clock and server clock are two synctest bubbles; every presentation is judged against the model "+
+		"copies concurrently, open a connection whose bytes arrive later (HandleStream already blocked in its first read while the clock moves; "+
+		"idle probe = open / optional acceptance of the same request elsewhere / +d in {0,1s-1ns,1s,29..31s,59..61s,100s} / optional other accept / bytes arrive; "+
+		"every verdict is judged at the instant the bytes arrive), retention probe = accept / move to accept+{59s,60s-1ns,60s,60s+1ns,60.5s,61s-1ns,61s} / optional other accept / same bytes again}; client clock and server clock are two synctest bubbles; every presentation is judged against the model "+
 		"accept iff -30 < ts-floor(now) <= 30 (whole seconds) and never accepted before. Non-trivial: a request presented twice inside its validity window with another "+
 		"request accepted in between; distinct key = class + sequence of presentation classes").
 	Require("replay-in-window", "re-presented-60s-to-61s-after-accept", "re-presented-after-retention-with-accept-between", "fresh-after-forged-same-salt",
-		"presented-outside-window", "skew-at-limit", "skew-just-outside", "concurrent", "valid-after-refused-as-outside-window")
+		"presented-outside-window", "skew-at-limit", "skew-just-outside", "concurrent", "valid-after-refused-as-outside-window",
+		"idle>=1s-before-bytes-arrive", "idle>=31s-before-bytes-arrive", "idle-connection-opened-before-earlier-acceptance",
+		"idle-connection-opened-before-acceptance-delivered-after-retention")
 
 func record(rec *ev.Recorder, p plan, out outcome) {
 	labels := make([]string, 0, len(out.labels)+1)
@@ -626,7 +770,7 @@ func TestReplayHistory(t *testing.T) {
 // ---- bounded-exhaustive histories over a boundary alphabet ---------------------------------------
 
 var recExh = ev.New("C03", "replay-exhaustive",
-	"bounded-exhaustive: every history of length <= depth over {+1ns, +1s-1ns, +30s, +60s, new(+30s), new(0), new(-29s), new(-30s), new(+31s), again(first), again(last)} "+
+	"bounded-exhaustive: every history of length <= depth over {+1ns, +1s-1ns, +30s, +60s, new(+30s), new(0), new(-29s), new(-30s), new(+31s), again(first), again(last), open-new(0) = open an idle connection for a new request, deliver = its bytes arrive on the oldest idle connection} "+
 		"from server instant 40s, for the classes k16/k32 x {no EIH, 1 iPSK}; same model as replay-history. Non-trivial as in replay-history")
 
 func TestReplayExhaustive(t *testing.T) {
@@ -641,7 +785,7 @@ func TestReplayExhaustive(t *testing.T) {
 	if v, err := strconv.Atoi(os.Getenv("VERIF_SHARDS")); err == nil && v > 0 {
 		shards = v
 	}
-	const nsym = 11
+	const nsym = 13
 	classes := []sstcp.Class{{KeyLen: 16, Segmented: true}, {KeyLen: 32, NIPSK: 1, Fallback: true}, {KeyLen: 16, NIPSK: 1, Prefix: 1}, {KeyLen: 32, Segmented: true, Fallback: true}}
 	var total, known int64
 	seq := make([]int, depth)
@@ -654,6 +798,7 @@ func TestReplayExhaustive(t *testing.T) {
 			if idx%shards == shard {
 				p := plan{Class: classes[idx%len(classes)], Seed: uint64(idx) + 1, Start: baseServerAdv}
 				now := p.Start
+				nconn, ndelivered := 0, 0
 				for _, sym := range seq[:length] {
 					newAt := func(skew time.Duration) {
 						p.Reqs = append(p.Reqs, reqSpec{At: now + skew})
@@ -682,6 +827,15 @@ func TestReplayExhaustive(t *testing.T) {
 					case 9:
 						if len(p.Reqs) > 0 {
 							p.Steps = append(p.Steps, step{Kind: stPresent, Req: 0})
+						}
+					case 11:
+						p.Reqs = append(p.Reqs, reqSpec{At: now})
+						p.Steps = append(p.Steps, step{Kind: stOpen, Req: len(p.Reqs) - 1, Conn: nconn})
+						nconn++
+					case 12:
+						if ndelivered < nconn {
+							p.Steps = append(p.Steps, step{Kind: stDeliver, Conn: ndelivered})
+							ndelivered++
 						}
 					case 10:
 						if len(p.Reqs) > 0 {
@@ -730,7 +884,8 @@ func TestReplayExhaustive(t *testing.T) {
 
 var recReg = ev.New("C03", "replay-regression",
 	"fixed histories: (client 30s ahead; accept; +d; other request accepted; same bytes again; 4 concurrent copies) for d in {30s,59s,60s,60s+1ns,61s-1ns} "+
-		"(the shrunk counterexample of the salt-retention defect fixed by adaf1bd) and the edges of the timestamp rule (ts-now = -31,-30,-29,+30,+31 whole seconds "+
+		"(the shrunk counterexample of the salt-retention defect fixed by adaf1bd), idle connections (opened, clock +d, bytes arrive; and opened before the same "+
+		"request is accepted elsewhere, +d, other accept, bytes arrive) and the edges of the timestamp rule (ts-now = -31,-30,-29,+30,+31 whole seconds "+
 		"at two sub-second phases); non-trivial as in replay-history")
 
 func regressionPlans() []plan {
@@ -751,6 +906,32 @@ func regressionPlans() []plan {
 					{At: start - 30*time.Second - time.Nanosecond}, {At: start - 31*time.Second}},
 				Steps: []step{{Kind: stPresent, Req: 0}, {Kind: stPresent, Req: 1}, {Kind: stPresent, Req: 2}, {Kind: stPresent, Req: 3}, {Kind: stPresent, Req: 4},
 					{Kind: stPresent, Req: 5}, {Kind: stAdv, D: time.Second}, {Kind: stPresent, Req: 2}, {Kind: stPresent, Req: 1}, {Kind: stPresent, Req: 0}}})
+		}
+	}
+	// connections opened early that stay idle while the clock moves: everything is judged when the bytes arrive
+	for ci, c := range []sstcp.Class{{KeyLen: 16, Segmented: true}, {KeyLen: 32, NIPSK: 1, Fallback: true}} {
+		for _, d := range []time.Duration{100 * time.Second, 31 * time.Second, 30 * time.Second, 29 * time.Second, time.Second} {
+			// (i) request stamped when the connection is opened, bytes arrive d later
+			ps = append(ps, plan{Class: c, Seed: uint64(300 + ci), Start: baseServerAdv,
+				Reqs:  []reqSpec{{At: baseServerAdv}},
+				Steps: []step{{Kind: stOpen, Req: 0, Conn: 0}, {Kind: stAdv, D: d}, {Kind: stDeliver, Conn: 0}}})
+		}
+		for _, d := range []time.Duration{60 * time.Second, 61*time.Second - time.Nanosecond, 59 * time.Second, time.Second} {
+			// (ii) connection opened before the same request is accepted elsewhere; another request accepted after d; bytes arrive
+			ps = append(ps, plan{Class: c, Seed: uint64(310 + ci), Start: baseServerAdv,
+				Reqs: []reqSpec{{At: baseServerAdv + 30*time.Second}, {At: baseServerAdv + d}},
+				Steps: []step{{Kind: stOpen, Req: 0, Conn: 0}, {Kind: stPresent, Req: 0}, {Kind: stAdv, D: d}, {Kind: stPresent, Req: 1},
+					{Kind: stDeliver, Conn: 0}}})
+		}
+	}
+	for ci, c := range []sstcp.Class{{KeyLen: 16, Segmented: true}, {KeyLen: 32, NIPSK: 1, Fallback: true}} {
+		for _, d := range []time.Duration{100 * time.Second, 61 * time.Second, 60 * time.Second, 31 * time.Second} {
+			// (iii) request stamped for the arrival instant arrives on a connection opened d earlier and is accepted; another
+			// request is accepted; the same bytes again immediately and 59 s later
+			ps = append(ps, plan{Class: c, Seed: uint64(320 + ci), Start: baseServerAdv,
+				Reqs: []reqSpec{{At: baseServerAdv + d + 29*time.Second}, {At: baseServerAdv + d}},
+				Steps: []step{{Kind: stOpen, Req: 0, Conn: 0}, {Kind: stAdv, D: d}, {Kind: stDeliver, Conn: 0}, {Kind: stPresent, Req: 1},
+					{Kind: stPresent, Req: 0}, {Kind: stAdv, D: 59 * time.Second}, {Kind: stPresent, Req: 0}}})
 		}
 	}
 	return ps
